@@ -1,6 +1,7 @@
 package main
 
 import (
+	"regexp"
 	"fmt"
 	"go/token"
 	"go/types"
@@ -21,6 +22,7 @@ const Mod = "github.com/atlassian/gostatsd"
 
 // World is the resolved program: type-checked packages, SSA, call graphs.
 type World struct {
+	Dissolved map[string]string // anchors that no longer exist -> the only caller they had (rules are applied there)
 	Repo    string
 	Pkgs    []*packages.Package
 	ByPath  map[string]*packages.Package
@@ -85,6 +87,21 @@ func loadPkgs(repo string, overlay map[string][]byte) ([]*packages.Package, erro
 func buildWorld(repo string, pkgs []*packages.Package) (*World, error) {
 	prog, _ := ssautil.AllPackages(pkgs, ssa.InstantiateGenerics)
 	prog.Build()
+	// NORM gives the locals of an inlined helper a suffix (__i3, __mv, __f2) that cannot clash with the caller's
+	// names; the suffix is taken off the names SSA records for locals, so that the few rules and all messages
+	// that mention a local by name see the name the source had
+	for fn := range ssautil.AllFunctions(prog) {
+		for _, b := range fn.Blocks {
+			for _, in := range b.Instrs {
+				switch x := in.(type) {
+				case *ssa.Alloc:
+					x.Comment = normSuffix.ReplaceAllString(x.Comment, "")
+				case *ssa.Phi:
+					x.Comment = normSuffix.ReplaceAllString(x.Comment, "")
+				}
+			}
+		}
+	}
 	w := &World{Repo: repo, Pkgs: pkgs, Prog: prog, Fset: prog.Fset,
 		ByPath: map[string]*packages.Package{}, SSAPkgs: map[string]*ssa.Package{}, Dead: map[string]bool{}}
 	for _, p := range pkgs {
@@ -339,4 +356,68 @@ func (w *World) isDead(fn *ssa.Function) bool {
 		}
 	}
 	return false
+}
+
+
+var baselineCallersCache map[string][]string
+
+// dissolvedInto: a declared function named mn of package p existed on the pinned tree, no longer exists (under
+// any receiver), had exactly one calling function there, and that function still exists: returns it.
+func (w *World) dissolvedInto(p *ssa.Package, mn string) *ssa.Function {
+	if baselineCallersCache == nil {
+		baselineCallersCache = baselineCallers()
+	}
+	var callers []string
+	nCallee := 0
+	for callee, cs := range baselineCallersCache {
+		k := shortKey(callee)
+		i := strings.Index(k, "#")
+		if i < 0 || k[:i] != p.Pkg.Path() || k[i+1:] != mn {
+			continue
+		}
+		nCallee++
+		callers = cs
+	}
+	if nCallee != 1 || len(callers) != 1 {
+		return nil
+	}
+	for _, fn := range w.ModuleFuncs() {
+		if fn.Parent() != nil || fn.Synthetic != "" {
+			continue
+		}
+		if obj, ok := fn.Object().(*types.Func); ok && obj.FullName() == callers[0] {
+			if w.Dissolved == nil {
+				w.Dissolved = map[string]string{}
+			}
+			w.Dissolved[p.Pkg.Path()+"."+mn] = callers[0]
+			return fn
+		}
+	}
+	return nil
+}
+
+
+var normSuffix = regexp.MustCompile(`__(i|mv|f)[0-9]*$`)
+
+
+// FuncOrHost is Func with one more fallback, for rules that can do their work on the caller: the anchor was
+// dissolved into the only function that referred to it on the pinned tree (inlined and deleted).  The code
+// the rule looks for now stands in that function; the rule is applied there (and fails as before if it does
+// not find it).  host reports whether the fallback was taken.
+func (w *World) FuncOrHost(rel, name string) (fn *ssa.Function, host bool) {
+	if f := w.Func(rel, name); f != nil {
+		return f, false
+	}
+	p := w.Pkg(rel)
+	if p == nil {
+		return nil, false
+	}
+	mn := name
+	if i := strings.LastIndex(mn, "."); i >= 0 {
+		mn = mn[i+1:]
+	}
+	if g := w.dissolvedInto(p, mn); g != nil {
+		return g, true
+	}
+	return nil, false
 }
